@@ -469,6 +469,24 @@ func ruleRearmedTimerIsAbsolute(c *Ctx, r *Report) {
 					self = true
 				}
 			}
+			// a tail call: the state is what a method of the same machine returns
+			if ex, isEx := unspill(ret.Results[0]).(*ssa.Extract); isEx && ex.Index == 0 {
+				if tc, isCall := ex.Tuple.(*ssa.Call); isCall {
+					if g := tc.Call.StaticCallee(); g != nil && g.Pkg == h.fn.Pkg && len(g.Blocks) > 0 && g.Signature.Recv() != nil {
+						for _, gb := range g.Blocks {
+							gret, isRet := gb.Instrs[len(gb.Instrs)-1].(*ssa.Return)
+							if !isRet || len(gret.Results) == 0 {
+								continue
+							}
+							for _, l := range append(c.Origins(unspill(gret.Results[0]), 0), unspill(gret.Results[0])) {
+								if k, isK := constInt(l); isK && k == h.state {
+									self = true
+								}
+							}
+						}
+					}
+				}
+			}
 		}
 		if !self {
 			continue
@@ -763,6 +781,16 @@ func (c *Ctx) windowCoverage(g *ssa.Function) (why string, decided bool) {
 	coef := arg.c[iAt]
 	if !arg.ok || (coef != 1 && coef != -1) {
 		return "the number marked is not (something) plus or minus the loop counter", false
+	}
+	// the range may be computed by a helper that is handed the position and the window and
+	// answers (first, count): then the two edge obligations are proved inside the helper, on what
+	// it returns, and the loop here has to run from first to first+count-1
+	if ex, isEx := start.(*ssa.Extract); isEx && coef == 1 {
+		if hc, isCall := ex.Tuple.(*ssa.Call); isCall {
+			if h := hc.Call.StaticCallee(); h != nil && inModule(h) && len(h.Blocks) > 0 && len(hc.Call.Args) == len(h.Params) {
+				return c.windowCoverageViaHelper(g, a, loop, check, ind, ex, hc, h, top, window)
+			}
+		}
 	}
 	topL, winL := a.linOf(top, 0), a.linOf(window, 0)
 	first := arg.subst(iAt, a.linOf(start, 0))
@@ -1440,4 +1468,91 @@ func ruleEarlyRecordSurvivesEpochChange(c *Ctx, r *Report) {
 		}
 	}
 	r.Check(where != "", rule, short(ccs)+":queue-replayed", c.pos(ccs.Pos()), "records queued for the next epoch are replayed after the read epoch moved ("+where+")", "records that were queued because they arrived ahead of the peer's ChangeCipherSpec are replayed only by flight parsers that run before the epoch change; nothing replays the queue once ChangeCipherSpec and Finished have been processed, so an application record that overtakes the datagram carrying them - a plain reordering of two consecutive datagrams - is never delivered")
+}
+
+// windowCoverageViaHelper: see windowCoverage. h returns (first, count) - in some order - computed
+// from the exported position and the window size it is handed.
+func (c *Ctx) windowCoverageViaHelper(g *ssa.Function, a *fnAn, loop *natLoop, check *ssa.Call, ind *ssa.Phi, firstEx *ssa.Extract, hc *ssa.Call, h *ssa.Function, top, window ssa.Value) (string, bool) {
+	// which parameters of the helper are the position and the window
+	pTop, pWin := -1, -1
+	for i, arg := range hc.Call.Args {
+		if arg == top || stripConv(arg) == stripConv(top) {
+			pTop = i
+		}
+		if arg == window || stripConv(arg) == stripConv(window) {
+			pWin = i
+		}
+	}
+	if pTop < 0 || pWin < 0 {
+		return "the helper that computes the range is not handed the exported position and the window size", false
+	}
+	var ret *ssa.Return
+	for _, b := range h.Blocks {
+		if r, ok := b.Instrs[len(b.Instrs)-1].(*ssa.Return); ok && b != h.Recover {
+			if ret != nil {
+				return "the helper that computes the range has several returns", false
+			}
+			ret = r
+		}
+	}
+	if ret == nil || len(ret.Results) != 2 {
+		return "the helper that computes the range does not return (first, count)", false
+	}
+	// the count is the other result, and the loop here stops at first+count
+	countIdx := 1 - firstEx.Index
+	var countEx ssa.Value
+	for _, ref := range *hc.Referrers() {
+		if e, ok := ref.(*ssa.Extract); ok && e.Index == countIdx {
+			countEx = e
+		}
+	}
+	if countEx == nil {
+		return "the count the helper returns is not used", false
+	}
+	iAt := atom{akVal, ssa.Value(ind)}
+	firstL, countL := a.linOf(firstEx, 0), a.linOf(countEx, 0)
+	lastMarked := single(iAt).add(konst(1), -1) // on an exit the counter is one past the last number asked about
+	for b := range loop.blocks {
+		for _, su := range b.Succs {
+			if loop.blocks[su] {
+				continue
+			}
+			fs := append([]cons{}, a.blockFacts(b)...)
+			if iff, ok := b.Instrs[len(b.Instrs)-1].(*ssa.If); ok && b.Succs[0] != b.Succs[1] {
+				fs = append(fs, a.condFacts(iff.Cond, b.Succs[0] == su)...)
+			}
+			// last >= first + count - 1
+			goal := lastMarked.add(firstL, -1).add(countL, -1).add(konst(1), 1)
+			if !a.proveAny(fs, []lin{goal}, 0) {
+				return "the marking loop can stop (" + c.ipos(b.Instrs[len(b.Instrs)-1]) + ") before it has asked about first+count-1, the newest number of the range its helper computed", true
+			}
+		}
+	}
+	// inside the helper: first is at or below the old edge, first+count-1 reaches the position
+	ah := freshAnExactUnsigned(h)
+	// the position as the helper sees it: its parameter, or the parameter clamped by a constant
+	var topH ssa.Value = h.Params[pTop]
+	for _, b := range h.Blocks {
+		for _, in := range b.Instrs {
+			if cl, ok := in.(*ssa.Call); ok && calleeName(&cl.Call) == "builtin:min" && len(cl.Call.Args) == 2 {
+				_, k0 := cl.Call.Args[0].(*ssa.Const)
+				_, k1 := cl.Call.Args[1].(*ssa.Const)
+				if (cl.Call.Args[0] == ssa.Value(h.Params[pTop]) && k1) || (cl.Call.Args[1] == ssa.Value(h.Params[pTop]) && k0) {
+					topH = cl
+				}
+			}
+		}
+	}
+	topL, winL := ah.linOf(topH, 0), ah.linOf(h.Params[pWin], 0)
+	fL, cL := ah.linOf(ret.Results[firstEx.Index], 0), ah.linOf(ret.Results[countIdx], 0)
+	facts := append([]cons{}, ah.blockFacts(ret.Block())...)
+	oldEdge := []lin{fL.scale(-1), topL.add(konst(1), 1).add(fL, -1).add(winL, -1)}
+	if !ah.proveAny(facts, oldEdge, 0) {
+		return "the oldest number " + short(h) + " hands back can be younger than position - window + 1: the numbers between the two are accepted once more by the resumed connection", true
+	}
+	newest := fL.add(cL, 1).add(konst(1), -1).add(topL, -1)
+	if !ah.proveAny(facts, []lin{newest}, 0) {
+		return "the range " + short(h) + " hands back can end before the exported position: the newest numbers are accepted once more by the resumed connection", true
+	}
+	return "", true
 }
